@@ -1,0 +1,12 @@
+//go:build verif
+
+package openflow13
+
+// Verification hooks (build tag "verif" only): export the unexported
+// offset/width word helpers so that an external harness can observe them.
+var (
+	VerifEncodeOfsNbits         = encodeOfsNbits
+	VerifEncodeOfsNbitsStartEnd = encodeOfsNbitsStartEnd
+	VerifDecodeOfs              = decodeOfs
+	VerifDecodeNbits            = decodeNbits
+)
